@@ -872,16 +872,12 @@ package scipipe
 //@   ensures direct-upstream-listed: forall q ref :: q != nil && directUp(q, proc) ==> procName(q) in procs
 //@   ensures closed-under-upstream: forall k string, q ref :: k in procs && q != nil && directUp(q, procOf(k)) ==> procName(q) in procs
 //@   ensures only-upstream: forall k string :: k in procs ==> directUp(procOf(k), proc) || (exists k2 string :: k2 in procs && directUp(procOf(k), procOf(k2)))
-//@   loop 0 invariant entry-allocated: forall k string :: joinPort(portInfos, k) ==> !fresh(old(inIPs[k])) && !fresh(old(inIPs[k].SubStream)) && !fresh(old(subChan(inIPs, k)))
-//@   loop 0 invariant inputs-unchanged: forall k string :: joinPort(portInfos, k) ==> inIPs[k] == old(inIPs[k]) && inIPs[k].SubStream == old(inIPs[k].SubStream) && subChan(inIPs, k) == old(subChan(inIPs, k))
 //@   loop 0 invariant fresh: fresh(procs) && procs != nil
 //@   loop 0 invariant vis: forall i string :: $visited[i] ==> i in inPortsOf(proc)
 //@   loop 0 invariant keyed: keyedByName(procs)
 //@   loop 0 invariant direct: forall i string, r string :: $visited[i] && r in inPortsOf(proc)[i].RemotePorts && inPortsOf(proc)[i].RemotePorts[r].process != nil ==> procName(inPortsOf(proc)[i].RemotePorts[r].process) in procs
 //@   loop 0 invariant closed: forall k string, q ref :: k in procs && q != nil && directUp(q, procOf(k)) ==> procName(q) in procs
 //@   loop 0 invariant only-upstream: forall k string :: k in procs ==> directUp(procOf(k), proc) || (exists k2 string :: k2 in procs && directUp(procOf(k), procOf(k2)))
-//@   loop 1 invariant entry-allocated: forall k string :: joinPort(portInfos, k) ==> !fresh(old(inIPs[k])) && !fresh(old(inIPs[k].SubStream)) && !fresh(old(subChan(inIPs, k)))
-//@   loop 1 invariant inputs-unchanged: forall k string :: joinPort(portInfos, k) ==> inIPs[k] == old(inIPs[k]) && inIPs[k].SubStream == old(inIPs[k].SubStream) && subChan(inIPs, k) == old(subChan(inIPs, k))
 //@   loop 1 invariant fresh: fresh(procs) && procs != nil
 //@   loop 1 invariant cur: inp != nil && (exists i string :: i in inPortsOf(proc) && inPortsOf(proc)[i] == inp)
 //@   loop 1 invariant vis: forall r string :: $visited[r] ==> r in inp.RemotePorts
@@ -890,7 +886,6 @@ package scipipe
 //@   loop 1 invariant direct-cur: forall r string :: $visited[r] && inp.RemotePorts[r].process != nil ==> procName(inp.RemotePorts[r].process) in procs
 //@   loop 1 invariant closed: forall k string, q ref :: k in procs && q != nil && directUp(q, procOf(k)) ==> procName(q) in procs
 //@   loop 1 invariant only-upstream: forall k string :: k in procs ==> directUp(procOf(k), proc) || (exists k2 string :: k2 in procs && directUp(procOf(k), procOf(k2)))
-//@   loop 2 invariant entry-allocated: forall k string :: joinPort(portInfos, k) ==> !fresh(old(inIPs[k])) && !fresh(old(inIPs[k].SubStream)) && !fresh(old(subChan(inIPs, k)))
 //@   loop 2 invariant fresh: fresh(procs) && procs != nil
 //@   loop 2 invariant vis: forall i string :: $visited[i] ==> i in inParamPortsOf(proc)
 //@   loop 2 invariant keyed: keyedByName(procs)
@@ -1298,6 +1293,8 @@ package scipipe
 //@   ensures substream-drained[C18]: forall k string :: joinPort(portInfos, k) ==> k in t.subStreamIPs && chanRecvN(subChan(inIPs, k)) == chanTotal(subChan(inIPs, k)) && len(t.subStreamIPs[k]) == chanTotal(subChan(inIPs, k)) - old(chanRecvN(subChan(inIPs, k))) && (forall j int :: 0 <= j && j < len(t.subStreamIPs[k]) ==> t.subStreamIPs[k][j] == chanInAt(subChan(inIPs, k), old(chanRecvN(subChan(inIPs, k))) + j))
 //@   ensures nothing-sent: forall c chan *FileIP :: !fresh(c) ==> chanSentN(c) == old(chanSentN(c))
 //@   ensures no-effects: effCreated == old(effCreated) && effMkdir == old(effMkdir) && effRenamed == old(effRenamed) && effRemoved == old(effRemoved) && effExec == old(effExec)
+//@   loop 0 invariant entry-allocated: forall k string :: joinPort(portInfos, k) ==> !fresh(old(inIPs[k])) && !fresh(old(inIPs[k].SubStream)) && !fresh(old(subChan(inIPs, k)))
+//@   loop 0 invariant inputs-unchanged: forall k string :: joinPort(portInfos, k) ==> inIPs[k] == old(inIPs[k]) && inIPs[k].SubStream == old(inIPs[k].SubStream) && subChan(inIPs, k) == old(subChan(inIPs, k))
 //@   loop 0 invariant fresh: t != nil && fresh(t) && fresh(t.subStreamIPs) && t.subStreamIPs != nil && fresh(t.OutIPs) && t.OutIPs != nil && t.OutIPs != inIPs
 //@   loop 0 invariant fields: t.Name == name && t.InIPs == inIPs && t.Params == params && t.Tags == tags && t.cores == cores && t.workflow == workflow && t.Process == process && t.CustomExecute == customExecute && t.portInfos == portInfos && t.Command == ""
 //@   loop 0 invariant done: t.Done != nil && fresh(t.Done) && chanCap(t.Done) == 0 && chanSentN(t.Done) == 0 && !chanClosed(t.Done)
@@ -1306,6 +1303,8 @@ package scipipe
 //@   loop 0 invariant drained: forall k string :: $visited[k] && joinPort(portInfos, k) ==> k in t.subStreamIPs && chanRecvN(subChan(inIPs, k)) == chanTotal(subChan(inIPs, k)) && len(t.subStreamIPs[k]) == chanTotal(subChan(inIPs, k)) - old(chanRecvN(subChan(inIPs, k))) && (forall j int :: 0 <= j && j < len(t.subStreamIPs[k]) ==> t.subStreamIPs[k][j] == chanInAt(subChan(inIPs, k), old(chanRecvN(subChan(inIPs, k))) + j))
 //@   loop 0 invariant not-yet: forall k string :: joinPort(portInfos, k) && !$visited[k] ==> chanRecvN(subChan(inIPs, k)) == old(chanRecvN(subChan(inIPs, k)))
 //@   loop 0 invariant nothing-sent: forall c chan *FileIP :: !fresh(c) ==> chanSentN(c) == old(chanSentN(c))
+//@   loop 1 invariant entry-allocated: forall k string :: joinPort(portInfos, k) ==> !fresh(old(inIPs[k])) && !fresh(old(inIPs[k].SubStream)) && !fresh(old(subChan(inIPs, k)))
+//@   loop 1 invariant inputs-unchanged: forall k string :: joinPort(portInfos, k) ==> inIPs[k] == old(inIPs[k]) && inIPs[k].SubStream == old(inIPs[k].SubStream) && subChan(inIPs, k) == old(subChan(inIPs, k))
 //@   loop 1 invariant fresh: t != nil && fresh(t) && fresh(t.subStreamIPs) && t.subStreamIPs != nil && fresh(t.OutIPs) && t.OutIPs != nil && t.OutIPs != inIPs
 //@   loop 1 invariant fields: t.Name == name && t.InIPs == inIPs && t.Params == params && t.Tags == tags && t.cores == cores && t.workflow == workflow && t.Process == process && t.CustomExecute == customExecute && t.portInfos == portInfos && t.Command == ""
 //@   loop 1 invariant done: t.Done != nil && fresh(t.Done) && chanCap(t.Done) == 0 && chanSentN(t.Done) == 0 && !chanClosed(t.Done)
@@ -1315,6 +1314,7 @@ package scipipe
 //@   loop 1 invariant others-drained: forall k string :: $visited0[k] && k != ptName && joinPort(portInfos, k) ==> k in t.subStreamIPs && chanRecvN(subChan(inIPs, k)) == chanTotal(subChan(inIPs, k)) && len(t.subStreamIPs[k]) == chanTotal(subChan(inIPs, k)) - old(chanRecvN(subChan(inIPs, k))) && (forall j int :: 0 <= j && j < len(t.subStreamIPs[k]) ==> t.subStreamIPs[k][j] == chanInAt(subChan(inIPs, k), old(chanRecvN(subChan(inIPs, k))) + j))
 //@   loop 1 invariant not-yet: forall k string :: joinPort(portInfos, k) && !$visited0[k] ==> chanRecvN(subChan(inIPs, k)) == old(chanRecvN(subChan(inIPs, k)))
 //@   loop 1 invariant nothing-sent: forall c chan *FileIP :: !fresh(c) ==> chanSentN(c) == old(chanSentN(c))
+//@   loop 2 invariant entry-allocated: forall k string :: joinPort(portInfos, k) ==> !fresh(old(inIPs[k])) && !fresh(old(inIPs[k].SubStream)) && !fresh(old(subChan(inIPs, k)))
 //@   loop 2 invariant fresh: t != nil && fresh(t) && allocated(t) && fresh(t.subStreamIPs) && allocated(t.subStreamIPs) && fresh(t.OutIPs) && allocated(t.OutIPs) && t.OutIPs != nil && t.OutIPs != inIPs && allocated(t.Done)
 //@   loop 2 invariant fields: t.Name == name && t.InIPs == inIPs && t.Params == params && t.Tags == tags && t.cores == cores && t.workflow == workflow && t.Process == process && t.CustomExecute == customExecute && t.portInfos == portInfos
 //@   loop 2 invariant done: t.Done != nil && fresh(t.Done) && chanCap(t.Done) == 0 && chanSentN(t.Done) == 0 && !chanClosed(t.Done)
